@@ -23,7 +23,8 @@ import gen  # noqa: E402
 import tlc  # noqa: E402
 
 VERIF = "/verif"
-WORK = os.path.join(VERIF, "work")
+WORK = os.environ.get("VERIF_WORK") or os.path.join(VERIF, "work")
+EVID = os.path.join(WORK, "evidence") if os.environ.get("VERIF_WORK") else os.path.join(VERIF, "evidence")
 CONF_CLAUSES = ["Inv_PROJ", "Inv_MTS"]
 
 
@@ -75,8 +76,8 @@ class Result:
         ev = {"property_id": self.pid, "tier": self.tier, "seed": self.seed, "level": level,
               "coverage": self.cov, "assumptions": self.assumptions,
               "wall_s": round(time.time() - self.t0, 2), "violations": len(self.violations)}
-        os.makedirs(os.path.join(VERIF, "evidence"), exist_ok=True)
-        with open(os.path.join(VERIF, "evidence", f"{self.pid}.json"), "w") as f:
+        os.makedirs(EVID, exist_ok=True)
+        with open(os.path.join(EVID, f"{self.pid}.json"), "w") as f:
             json.dump(ev, f, indent=1)
 
     def finish(self) -> int:
